@@ -1,6 +1,6 @@
 (* C12 - after update, compare reports the rule as unchanged, and vice versa.  Statements only. *)
 From Coq Require Import String.
-From Verif Require Import Base.Str Base.Outcome Model.Update Proofs.UpdateProofs.
+From Verif Require Import Base.Str Base.Outcome Model.Update Proofs.UpdateProofs Proofs.RoundTripProofs.
 From Verif Require Tie.Pin_RuleRxRegex_src Tie.Pin_SecRuleRegex_src Tie.Pin_lits_cmd_regex_update_updateRegex
   Tie.Pin_lits_cmd_regex_compare_readCurrentRegex Tie.Pin_lits_cmd_regex_compare_processRegexForCompare
   Tie.Pin_lits_cmd_regex_compare_performCompare.
@@ -30,3 +30,41 @@ Theorem C12_read_after_update_refuted :
   exists out, update_contents rules_unchained $"942100" 0 $"\""@rx x" = Ok out /\
               read_current out $"942100" 0 = Ok $"x".
 Proof. exact read_after_update_refuted. Qed.
+
+(* THE ROUND TRIP.  For every rules file, rule id, chain offset and new operand: if update
+   succeeds, the operand contains no newline, no operator marker ends inside it
+   ([operand_clean]) and the rewritten line is still the same line to the locator
+   ([same_class]: it mentions id:<id> and SecRule exactly when the old line did), then the
+   reader of compare returns exactly the new operand, and compare says "unchanged" exactly when
+   the regex generated now is byte for byte what update wrote.
+   The complement of [operand_clean] is the recorded finding C12-marker-in-regex (refuted below);
+   the complement of [same_class] is outside what generate can produce for a regex (it would need
+   the text SecRule or id:<id> inside the operand: the C11 findings). *)
+Theorem C12_compare_reads_what_update_wrote : forall contents id k new out generated,
+  update_contents contents id k new = Ok out -> ~ In 10 new ->
+  (forall i g1 g2 g3 rest,
+     locate (split_on 10 contents) id k = Ok (Some i) ->
+     rx_match (nth i (split_on 10 contents) []) = Some (g1, g2, g3, rest) ->
+     operand_clean g1 new /\
+     same_class ($"id:" ++ id) (nth i (split_on 10 contents) []) (g1 ++ new ++ g3)) ->
+  exists cur, read_current out id k = Ok cur /\ (unchanged cur generated = true <-> generated = new).
+Proof. exact compare_after_update. Qed.
+Print Assumptions C12_compare_reads_what_update_wrote.
+
+(* [operand_clean] holds as soon as neither "@rx nor "!@rx occurs inside the new operand: a
+   marker cannot straddle the end of group 1, which always ends with the marker's space *)
+Theorem C12_operand_without_marker_is_clean : forall line g1 g2 g3 rest new,
+  rx_match line = Some (g1, g2, g3, rest) ->
+  (forall p, ~ occ marker_pos new p) -> (forall p, ~ occ marker_neg new p) ->
+  operand_clean g1 new.
+Proof.
+  intros line g1 g2 g3 rest new H Hp Hn. destruct (g1_ends_with_space _ _ _ _ _ H) as [g ->].
+  now apply operand_clean_when_no_marker_inside.
+Qed.
+Print Assumptions C12_operand_without_marker_is_clean.
+
+Theorem C12_round_trip_example :
+  exists out, update_contents rules_unchained $"942100" 0 $"(?i)a+""b" = Ok out /\
+              read_current out $"942100" 0 = Ok $"(?i)a+""b".
+Proof. exact read_after_update_example. Qed.
+Print Assumptions C12_round_trip_example.
